@@ -34,6 +34,18 @@ pub struct SchedSpec {
     /// future / timers again (61 is tokio's default; 1 and 1000 are the extremes explored)
     #[serde(default = "default_event_interval")]
     pub event_interval: u32,
+    /// probability (per 1000) that an acquisition is preceded by a *long* stall of the acquiring
+    /// task (a worker thread descheduled for a while): every other runnable task gets up to
+    /// `stall_len` polls in between, enough to complete whole multi-await operations inside a
+    /// window that is otherwise a few scheduler steps wide
+    #[serde(default)]
+    pub stall_permille: u32,
+    #[serde(default)]
+    pub stall_len: u32,
+    /// only acquisitions of locks whose protected type name contains this string stall ("" = any):
+    /// "this resource is slow in this run"
+    #[serde(default)]
+    pub stall_target: String,
 }
 
 fn default_event_interval() -> u32 {
@@ -374,13 +386,18 @@ impl Controller for SimController {
         d as usize
     }
 
-    fn pre_acquire_yields(&mut self, _kind: AcqKind, _task: u64) -> u32 {
+    fn pre_acquire_yields(&mut self, _kind: AcqKind, _task: u64, ty: &'static str) -> u32 {
         let mut s = self.0.borrow_mut();
+        let stall_here = s.spec.stall_target.is_empty() || ty.contains(s.spec.stall_target.as_str());
         let pm = s.spec.yield_permille;
         let maxy = s.spec.max_yields.max(1);
+        let (spm, slen) = (s.spec.stall_permille, s.spec.stall_len.max(2));
         let d = s.decide(
             |s| {
-                if pm > 0 && s.rng.below(1000) < pm as u64 {
+                if spm > 0 && stall_here && s.rng.below(1000) < spm as u64 {
+                    s.probes.entry("long_stall_injected").and_modify(|c| *c += 1).or_insert(1);
+                    s.rng.range((slen / 2).max(1) as u64, slen as u64) as u32
+                } else if pm > 0 && s.rng.below(1000) < pm as u64 {
                     s.rng.range(1, maxy as u64) as u32
                 } else {
                     0
@@ -388,7 +405,7 @@ impl Controller for SimController {
             },
             0,
         );
-        let d = d.min(8);
+        let d = d.min(64);
         s.stats.yields += d as u64;
         d
     }
